@@ -1964,7 +1964,15 @@ class Manager(utils.EventEmitter):
             return
 
         # Look for a session with this connection, and create one if none exists
-        if not (session := self.sessions.get(connection.handle)):
+        # (a session that has already completed does not take part in a new pairing)
+        session = self.sessions.get(connection.handle)
+        if (
+            session is not None
+            and session.completed
+            and command.code == CommandCode.PAIRING_REQUEST
+        ):
+            session = None
+        if not session:
             if connection.role == Role.CENTRAL:
                 logger.warning('Remote starts pairing as Peripheral!')
             pairing_config = self.pairing_config_factory(connection)
